@@ -271,6 +271,11 @@ def _signature_table(ctx):
 
 
 # ---------------------------------------------------------------- tie 1b
+# closing tactic of the ties: the shared `se_close`, then (for decision trees whose shape differs from the model's:
+# conditional expressions instead of min / max, negated comparisons) a full case split with arithmetic at the leaves
+_CLOSE = ("first\n    | se_close\n"
+          "    | (simp only [Rat.min_def, Rat.max_def]; repeat' split; all_goals (try simp); all_goals (try grind))\n"
+          "    | (simp only [Option.map]; repeat' split; all_goals (try simp); all_goals (try grind))")
 _UNF = "SE.Intervals.intervalsOverlap SE.Intervals.threshold SE.Intervals.thrOverlap"
 _UNFR = "SE.Intervals.intervalsOverlapR SE.Intervals.thresholdR"
 
@@ -313,7 +318,11 @@ def _sym_tie_r(ctx, name, fn, variables, ret_type, model_term, tactic, meta):
         return
     args = " ".join(variables)
     src = (f"def {name} (rnd : Rat → Rat) ({args} : Rat) : Option ({ret_type}) :=\n  {body}\n"
-           f"theorem {name}_tie (rnd : Rat → Rat) ({args} : Rat) : {name} rnd {args} = {model_term} := by\n"
+           # the laws of a rounding (monotone, exact at 0, sign-preserving: `IsRnd` of Proofs/C12.lean) are at
+           # hand, so that a correct fast path on a sign / an order still proves
+           f"theorem {name}_tie (rnd : Rat → Rat) (rnd_mono : ∀ x y, x ≤ y → rnd x ≤ rnd y) (rnd_zero : rnd 0 = 0)\n"
+           f"    (rnd_neg : ∀ x, x < 0 → rnd x < 0) (rnd_pos : ∀ x, 0 < x → 0 < rnd x) ({args} : Rat) :\n"
+           f"    {name} rnd {args} = {model_term} := by\n"
            f"  {tactic}\n")
     ctx.symbolic_ties[name] = {"paths": len(res), "arithmetic": "rounding"}
     ctx.obligation(name, src, meta)
@@ -369,10 +378,10 @@ def _symbolic_ties(ctx):
         def tie(name, thunk, variables, model_exact, model_r, unf_exact, unf_r, op):
             if cls is Sym:
                 ctx.sym_tie(name, thunk, variables, "Bool", model_exact,
-                            tactic=f"unfold {name} {unf_exact}\n  se_close", meta={"op": op})
+                            tactic=f"unfold {name} {unf_exact}\n  {_CLOSE}", meta={"op": op})
             else:
                 _sym_tie_r(ctx, name, thunk, variables, "Bool", model_r,
-                           f"unfold {name} {unf_r}\n  se_close", {"op": op + "_f64"})
+                           f"unfold {name} {unf_r}\n  {_CLOSE}", {"op": op + "_f64"})
 
         for m, (kw, margs) in modes.items():
             tie(f"ext_overlap_{m}{tag}", lambda kw=kw: ops.intervals_overlap((s1, e1), (s2, e2), **kw), V,
